@@ -127,7 +127,7 @@ theorem foldNum_type {f : Num → Num → Except Err Num} {init acc : Num} {pre 
     foldNum f init (pre ++ x :: post) = .error .type := by
   unfold foldNum at *
   rw [List.foldlM_append, hpre]
-  simp only [pure_bind, List.foldlM_cons, expectNumber_err hx]; rfl
+  simp only [List.foldlM_cons, expectNumber_err hx]; rfl
 
 theorem cmpNum_go_type {op : Num → Num → Bool} : ∀ {ns : List Num} {last : Num} {x : Value} {post : List Value},
     Num.cmpChain op (last :: ns) = true → ¬ IsNum x →
@@ -298,6 +298,167 @@ theorem readLiterals_ne_fuel : ∀ (ds : List Datum) (σ : Store), NotFuel (read
       · rename_i heq₂; rw [heq₂] at h₂; exact h₂
       · simp
 end
+
+end Eval
+
+/-! ## division by an exact zero -/
+
+namespace Num
+
+/-- exact numbers: integers and ratios -/
+def Exact : Num → Prop
+  | .real _ => False
+  | _ => True
+
+/-- an exact zero, in either representation (`0`, or a ratio with numerator `0`) -/
+def ExactZero : Num → Prop
+  | .int i => i = 0
+  | .rat n _ => n = 0
+  | .real _ => False
+
+/-- `/` with an exact dividend and an exact zero divisor: every branch of `upcast` -/
+theorem div_exactZero {a b : Num} (ha : a.Exact) (hb : b.ExactZero) : div a b = .error .divZero := by
+  cases a <;> cases b <;> simp_all [Exact, ExactZero, div, upcast]
+
+theorem floorQuotient_exactZero {a b : Num} (ha : a.Exact) (hb : b.ExactZero) :
+    floorQuotient a b = .error .divZero := by
+  unfold floorQuotient; rw [div_exactZero ha hb]; rfl
+
+theorem floorRemainder_exactZero {a b : Num} (ha : a.Exact) (hb : b.ExactZero) :
+    floorRemainder a b = .error .divZero := by
+  unfold floorRemainder; rw [floorQuotient_exactZero ha hb]; rfl
+
+end Num
+
+namespace Prim
+
+theorem foldNum_div_zero {init acc b : Num} {pre post : List Value}
+    (hpre : foldNum Num.div init pre = .ok acc) (ha : acc.Exact) (hb : b.ExactZero) :
+    foldNum Num.div init (pre ++ .num b :: post) = .error .divZero := by
+  unfold foldNum at *
+  rw [List.foldlM_append, hpre]
+  simp only [List.foldlM_cons, expectNumber]
+  show (Num.div acc b >>= _) = _
+  rw [Num.div_exactZero ha hb]; rfl
+
+end Prim
+
+/-! ## the applications performed by one run of the trampoline -/
+
+namespace Eval
+open Prim
+
+/-- `Reaches env σ p args σq q qargs`: the loop `applyLoop` started in store `σ` with procedure `p`
+and arguments `args` arrives, in store `σq`, at the head of an iteration with procedure `q` and
+arguments `qargs` — through `apply` (whose spread arguments become the next iteration) and through
+pending tail calls of user procedures (operator and operands evaluated, procedure test passed).
+Every procedure the loop applies is reached this way. -/
+inductive Reaches (env : Nat) : Store → Value → List Value → Store → Value → List Value → Prop
+  | refl {σ p args} : Reaches env σ p args σ p args
+  | apply {σ args f args' σq q qargs} (ha : 1 ≤ args.length) (hs : spreadApply args = .ok (f, args'))
+      (h : Reaches env σ f args' σq q qargs) : Reaches env σ (.builtin .apply) args σq q qargs
+  | tail {σ lam cenv args f targs tenv σ₁ fv σ₂ vs σ₃ σq q qargs}
+      (ha : arityOk lam.formals.fixed.length lam.formals.rest.isSome args.length = true)
+      (hs : AppliesScheme σ lam cenv args (.ok (.tailCall f targs tenv)) σ₁)
+      (hf : Evals σ₁ tenv f (.ok fv) σ₂) (hargs : EvalsArgs σ₂ tenv targs (.ok vs) σ₃)
+      (hp : (procArity fv).isSome) (h : Reaches env σ₃ fv vs σq q qargs) :
+      Reaches env σ (.closure lam cenv) args σq q qargs
+
+/-- the outcome of the loop is the outcome of the loop continued from any iteration it reaches -/
+theorem Reaches.applies {env σ p args σq q qargs r σ'} (h : Reaches env σ p args σq q qargs)
+    (hq : Applies σq q qargs env r σ') : Applies σ p args env r σ' := by
+  induction h with
+  | refl => exact hq
+  | apply ha hs _ ih => exact Applies.apply ha hs (ih hq)
+  | tail ha hs hf hargs hp _ ih => exact Applies.closure_tail ha hs hf hargs hp (ih hq)
+
+theorem Reaches.trans {env σ p args σ₁ p₁ args₁ σ₂ p₂ args₂} (h : Reaches env σ p args σ₁ p₁ args₁)
+    (h₂ : Reaches env σ₁ p₁ args₁ σ₂ p₂ args₂) : Reaches env σ p args σ₂ p₂ args₂ := by
+  induction h with
+  | refl => exact h₂
+  | apply ha hs _ ih => exact .apply ha hs (ih h₂)
+  | tail ha hs hf hargs hp _ ih => exact .tail ha hs hf hargs hp (ih h₂)
+
+/-! ### one unfolding of the loop, case by case: the arity gate, then the step -/
+
+/-- THE ARITY GATE: whatever the procedure, an argument count its parameter list does not accept
+ends the iteration before anything else happens -/
+theorem applyLoop_arity_gate (n : Nat) (σ : Store) {p : Value} {args : List Value} (env : Nat) {fixed variadic}
+    (hp : procArity p = some (fixed, variadic)) (ha : arityOk fixed variadic args.length = false) :
+    applyLoop (n+1) σ p args env = (.error (.arity, none), σ) := by
+  unfold applyLoop; simp only [hp, ha]; simp
+
+theorem applyLoop_not_proc (n : Nat) (σ : Store) {p : Value} (args : List Value) (env : Nat)
+    (hp : procArity p = none) :
+    applyLoop (n+1) σ p args env = (.error (.panic "apply_procedure: not a procedure", none), σ) := by
+  unfold applyLoop; simp only [hp]
+
+theorem applyLoop_builtin_step (n : Nat) (σ : Store) {b : Builtin} {args : List Value} (env : Nat)
+    (hb : b ≠ .apply) (ha : arityOk b.arity.1 b.arity.2 args.length = true) :
+    applyLoop (n+1) σ (.builtin b) args env = applyPure σ b args := by
+  rw [applyLoop]
+  · simp only [procArity, ha]; simp
+  · exact fun h => hb h
+
+/-- `apply`: after the gate the loop continues — a new iteration, with a new gate — with the
+procedure it was handed and the spread arguments -/
+theorem applyLoop_apply_step (n : Nat) (σ : Store) {args : List Value} (env : Nat) {f args'}
+    (ha : 1 ≤ args.length) (hs : spreadApply args = .ok (f, args')) :
+    applyLoop (n+1) σ (.builtin .apply) args env = applyLoop n σ f args' env := by
+  rw [applyLoop]
+  have : arityOk 1 true args.length = true := by
+    have : ¬ args.length < 1 := by omega
+    simp [arityOk, this]
+  simp only [procArity, Builtin.arity, this, hs]; simp
+
+theorem applyLoop_apply_err (n : Nat) (σ : Store) {args : List Value} (env : Nat) {er}
+    (ha : 1 ≤ args.length) (hs : spreadApply args = .error er) :
+    applyLoop (n+1) σ (.builtin .apply) args env = (.error (er, none), σ) := by
+  rw [applyLoop]
+  have : arityOk 1 true args.length = true := by
+    have : ¬ args.length < 1 := by omega
+    simp [arityOk, this]
+  simp only [procArity, Builtin.arity, this, hs]; simp
+
+/-- a user procedure whose body ends in a pending tail call: operator and operands are evaluated and
+the loop continues — a new iteration, with a new gate — with the callee -/
+theorem applyLoop_tail_step (n : Nat) {σ : Store} {lam : Lambda} {cenv : Nat} {args : List Value} (env : Nat)
+    {f targs tenv σ₁ fv σ₂ vs σ₃}
+    (ha : arityOk lam.formals.fixed.length lam.formals.rest.isSome args.length = true)
+    (hs : applyScheme n σ lam cenv args = (.ok (.tailCall f targs tenv), σ₁))
+    (hf : evalExpr n σ₁ tenv f = (.ok fv, σ₂)) (hargs : evalArgs n σ₂ tenv targs = (.ok vs, σ₃))
+    (hp : (procArity fv).isSome) :
+    applyLoop (n+1) σ (.closure lam cenv) args env = applyLoop n σ₃ fv vs env := by
+  obtain ⟨a, hpa⟩ := Option.isSome_iff_exists.mp hp
+  rw [applyLoop]; simp only [procArity, ha, hs, hf, hargs]
+  simp only [procArity] at hpa
+  simp [hpa]
+
+theorem applyLoop_value_step (n : Nat) {σ : Store} {lam : Lambda} {cenv : Nat} {args : List Value} (env : Nat)
+    {v σ₁} (ha : arityOk lam.formals.fixed.length lam.formals.rest.isSome args.length = true)
+    (hs : applyScheme n σ lam cenv args = (.ok (.value v), σ₁)) :
+    applyLoop (n+1) σ (.closure lam cenv) args env = (.ok v, σ₁) := by
+  rw [applyLoop]; simp only [procArity, ha, hs]; simp
+
+/-! ### a failing native procedure, in every way it can be invoked -/
+
+/-- the native procedure `b` applied to `args` in store `σ` is stopped with an error of kind `k`,
+THE STORE UNCHANGED: as a plain run of the native code (`pure`), as an iteration of the trampoline,
+whatever the calling frame (`loop`), and as a whole activation (`proc`; `leave (enter σ)` is `σ`
+with the activation counted in `maxDepth`) -/
+structure BuiltinFault (σ : Store) (b : Builtin) (args : List Value) (k : Err) : Prop where
+  pure : applyPure σ b args = (.error (k, none), σ)
+  loop : ∀ env, Applies σ (.builtin b) args env (.error (k, none)) σ
+  proc : ∀ env, AppliesProc σ (.builtin b) args env (.error (k, none)) (leave (enter σ))
+
+theorem BuiltinFault.intro {σ b args k} (hb : b ≠ .apply) (ha : arityOk b.arity.1 b.arity.2 args.length = true)
+    (hk : k ≠ .fuel) (h : applyPure σ b args = (.error (k, none), σ))
+    (h' : applyPure (enter σ) b args = (.error (k, none), enter σ)) : BuiltinFault σ b args k :=
+  ⟨h, fun _ => Applies.builtin hb ha h (.error_of hk),
+   fun _ => AppliesProc.of_loop (Applies.builtin hb ha h' (.error_of hk))⟩
+
+@[simp] theorem vecs_enter (σ : Store) : (enter σ).vecs = σ.vecs := rfl
+@[simp] theorem frames_enter (σ : Store) : (enter σ).frames = σ.frames := rfl
 
 end Eval
 end Ruschm
